@@ -39,7 +39,7 @@ def plain_ids(prefix: str, n: int) -> List[str]:
 @st.composite
 def rich_id(draw, kind: str = "any"):
     """One identifier from the classes of DESIGN 3.1 (never blank/whitespace; never '(' or ')')."""
-    cls = draw(st.sampled_from(["plain", "plain", "digit", "keyword", "punct", "punct", "nonascii", "dunder"]))
+    cls = draw(st.sampled_from(["plain"] * 6 + ["digit", "digit", "keyword", "keyword", "punct", "punct", "punct", "punct", "nonascii", "nonascii"] + ["dunder"]))
     base = draw(st.text(alphabet=string.ascii_letters + string.digits + "_", min_size=1, max_size=5))
     if cls == "plain":
         s = "x" + base
